@@ -57,7 +57,7 @@ def preload():
 
 
 EXPECTED_PROBES = {t: ["torn_root_inside_token", "torn_module", "torn_to_empty", "garble_float_id", "garble_string_enum_value",
-                       "garble_unknown_param", "garble_param_arity", "garble_empty_enum", "garble_array_size", "garble_deep_nest", "other_text:random_tokens", "other_text:crlf", "other_text:bom",
+                       "garble_unknown_param", "garble_param_arity", "garble_empty_enum", "garble_array_size", "garble_deep_nest", "other_text:random_tokens", "other_text:crlf", "other_text:bom", "banner_comment",
                        "missing_module", "empty_module", "string_api", "tree_modified_in_place", "shared_logger_reused", "err_rendered",
                        "citation_checked"] for t in TIERS}
 
@@ -263,6 +263,13 @@ def run_one(seed: int, index: int, tier: str) -> dict:
         root = small_tree(rng)
         files = K.tree_files(root, style=rng.randint(0, 1))
         if rl.random() < 0.3:
+            # a licence-style banner: long runs of '*' inside a block comment (every truncation inside it is an
+            # unterminated comment ending in a run of stars)
+            n = rl.choice([12, 30, 45, 70])
+            banner = "/" + "*" * n + "\n * schema " + "*" * (n // 2) + " generated\n " + "*" * n + "/\n"
+            files = {k: (banner + v if rl.random() < 0.7 else v.replace("\n\n", "\n" + banner + "\n", 1)) for k, v in files.items()}
+            probes["banner_comment"] += 1
+        if rl.random() < 0.3:
             # comments and blank lines so that line numbers and token boundaries vary
             files = {k: v.replace("\n\n", "\n// note\n\n", 1).replace("{\n", "{ /* c */\n", 1) for k, v in files.items()}
         with Scratch("c11g") as base:
@@ -286,6 +293,7 @@ def run_one(seed: int, index: int, tier: str) -> dict:
     tree_json = {"files": files}
     nviol = [0]
     sample_faults = []
+    first_err = {}
     recent = []        # the last three parses of this process (files + logger mode): what a replay needs to re-create
     inplace = rl.random() < 0.7
     if inplace:
@@ -311,8 +319,13 @@ def run_one(seed: int, index: int, tier: str) -> dict:
             K.sync_files(sub, ff)
             v, out = judge_parse(par, "file", sub / "main.fcp", mode, source_map(ff), probes)
         res["evals"] += 1
-        hist = list(recent)
-        recent[:] = (recent + [{"files": ff, "logger": mode}])[-3:]
+        # what a replay needs: the first parse of this run whose error was rendered through the same long-lived
+        # logger (it may have filled a cache there), then the last three parses
+        hist = ([first_err[mode]] if mode in first_err and first_err[mode] not in recent else []) + list(recent)
+        entry = {"files": ff, "logger": mode}
+        if out == "err" and mode != "fresh" and mode not in first_err:
+            first_err[mode] = entry
+        recent[:] = (recent + [entry])[-3:]
         faults[kind.split("_")[0] if kind.startswith("garble") else kind] += 1      # torn / garble / random_* / crlf / ...
         if out != "ok":
             distinct.add(short([depth_of.get(file, 1), kind, tokinfo, api, out]))
